@@ -308,13 +308,17 @@ func roundTripCLI(r *lib.Run) {
 			}
 			r.Obs("cli_accepted", 1)
 			r.Case("cli|"+s+"|"+sub, true)
-			// classify a relative spelling by the absolute label it stands for
+			// Classify by the absolute label the spelling stands for: anything that is not a label by
+			// itself and does not start with // or : is read relative to the initial package.
 			abs := s
-			if form(s) == "relative" && s != "-" {
-				if strings.HasPrefix(s, "/") {
-					abs = "/" + s
-				} else {
-					abs = "//" + filepath.Join(sub, s)
+			if s != "-" && !strings.HasPrefix(s, ":") {
+				t := s
+				if !strings.HasPrefix(t, "//") && strings.HasPrefix(t, "/") {
+					t = "/" + t
+				}
+				abs = t
+				if _, err := core.TryParseBuildLabel(t, "", ""); err != nil && !strings.HasPrefix(t, "//") {
+					abs = "//" + filepath.Join(sub, t)
 					r.Obs("cli_relative_accepted", 1)
 				}
 			}
@@ -818,7 +822,7 @@ func cfgNote(cfg string) string {
 }
 
 func endToEnd(r *lib.Run) {
-	n := r.Pick(2, 40)
+	n := r.Pick(2, 30)
 	r.ForEach("e2e", n*e2eGroups, 8, func(u int, _ *rand.Rand) {
 		i, group := u/e2eGroups, u%e2eGroups
 		rng := r.Rand("e2e-case", i)
